@@ -561,6 +561,10 @@ fn execute(sc: &Scenario, out: &mut Outcome) {
                     out.violate("w-answered-by-dump", format!("status-{}", r.status), format!("well-formed request was refused with {} {}; request={shown}", r.status, r.reason));
                     return;
                 }
+                if r.header("X-Dump-Method") != Some(base.method.as_str()) {
+                    out.violate("w-dump-equals-reference", "method-seen-by-the-fang", format!("the fang saw method {:?}, the request line says {}; request={shown}", r.header("X-Dump-Method"), base.method));
+                    return;
+                }
                 if base.is_head() {
                     // HEAD: no body to compare; the dump fang ran (X-Dump) and that is all that is observable
                     return;
